@@ -32,7 +32,7 @@ func init() {
 var c13names = []string{"origin.example", "a.example:8448", "10.1.2.3", "10.1.2.3:8008", "[2001:db8::1]", "[::1]:8448", "xn--e1afmkfd.example", "UPPER.example", "h-y.phen.example"}
 var c13paths = []string{"/_matrix/federation/v1/send/1234", "/_matrix/federation/v2/send_join/%21room%3Aa.example/%24ev", "/_matrix/key/v2/server", "/a%2Fb/c", "/_matrix/federation/v1/event/$abc:def",
 	"/p/%C3%A9", "/with%20space", "/_matrix/federation/v1/query/directory", "/", "/x/y/z/"}
-var c13queries = []string{"", "", "?room_alias=%23a%3Ab", "?a=1&b=2", "?ver=1&ver=2&ver=10", "?q=", "?x=%2F%3F", "?e=%C3%A9", "?", "?&", "?flag", "?=1"}
+var c13queries = []string{"", "", "?room_alias=%23a%3Ab", "?a=1&b=2", "?ver=1&ver=2&ver=10", "?q=", "?x=%2F%3F", "?e=%C3%A9", "?", "?&", "?flag", "?=1", "?q=caf\uFFFD", "?r=\uFFFD\uFFFD&s=1"}
 
 // Origins that are not server names by the specification's grammar (checked against ref.ServerName at start-up) but for
 // which the receiver holds a key: a genuine signature must not make them acceptable.
@@ -303,6 +303,15 @@ func runC13(c *mon.Ctx) {
 				"path-prefix":  func(w *wireReq) bool { w.uri = "/extra" + w.uri; return true },
 				"query-add":    func(w *wireReq) bool { if strings.Contains(w.uri, "?") { w.uri += "&admin=1" } else { w.uri += "?admin=1" }; return true },
 				"query-remove": func(w *wireReq) bool { p, _, ok := strings.Cut(w.uri, "?"); w.uri = p; return ok },
+				// U+FFFD is what invalid UTF-8 is silently turned into when the signed object is rebuilt: a URI whose
+				// replacement characters became arbitrary invalid bytes on the way is a different URI
+				"uri-replacement-char-to-invalid-byte": func(w *wireReq) bool {
+					if !strings.Contains(w.uri, "\uFFFD") {
+						return false
+					}
+					w.uri = strings.Replace(w.uri, "\uFFFD", gen.Pick(tr, []string{"\xff", "\xe9", "\x80", "\xc3"}), 1)
+					return true
+				},
 				"bare-?-added": func(w *wireReq) bool {
 					if strings.Contains(w.uri, "?") {
 						return false
@@ -357,6 +366,32 @@ func runC13(c *mon.Ctx) {
 				"header-basic":    func(w *wireReq) bool { w.setHeader("Authorization", "Basic dXNlcjpwYXNz"); return true },
 				"header-no-params": func(w *wireReq) bool { w.setHeader("Authorization", "X-Matrix"); return true },
 				"header-garbage":  func(w *wireReq) bool { w.setHeader("Authorization", "X-Matrix origin,key,sig"); return true },
+				// correct values in a parameter list that is not a list of name=token / name="quoted-string" pairs
+				"header-origin-unterminated-quote": func(w *wireReq) bool {
+					w.setHeader("Authorization", fmt.Sprintf("X-Matrix origin=\"%s,key=\"%s\",sig=\"%s\",destination=\"%s\"", xm.origin, xm.key, xm.sig, xm.dest))
+					return true
+				},
+				"header-origin-unopened-quote": func(w *wireReq) bool {
+					w.setHeader("Authorization", fmt.Sprintf("X-Matrix origin=%s\",key=\"%s\",sig=\"%s\",destination=\"%s\"", xm.origin, xm.key, xm.sig, xm.dest))
+					return true
+				},
+				"header-doubled-quotes": func(w *wireReq) bool {
+					w.setHeader("Authorization", fmt.Sprintf("X-Matrix origin=\"\"%s\"\",key=\"%s\",sig=\"%s\",destination=\"%s\"", xm.origin, xm.key, xm.sig, xm.dest))
+					return true
+				},
+				"header-sig-unterminated-quote": func(w *wireReq) bool {
+					w.setHeader("Authorization", fmt.Sprintf("X-Matrix origin=\"%s\",key=\"%s\",sig=\"%s,destination=\"%s\"", xm.origin, xm.key, xm.sig, xm.dest))
+					return true
+				},
+				"header-destination-unterminated-quote": func(w *wireReq) bool {
+					w.setHeader("Authorization", fmt.Sprintf("X-Matrix origin=\"%s\",key=\"%s\",sig=\"%s\",destination=\"%s", xm.origin, xm.key, xm.sig, xm.dest))
+					return true
+				},
+				"header-junk-member": func(w *wireReq) bool {
+					w.setHeader("Authorization", xm.String()+",!!! not a parameter !!!")
+					return true
+				},
+				"header-lone-quote-member": func(w *wireReq) bool { w.setHeader("Authorization", xm.String()+",\""); return true },
 				"header-conflicting-origins": func(w *wireReq) bool {
 					x := xm
 					x.origin = other
